@@ -34,9 +34,19 @@ for sid in sorted(os.listdir(os.path.join(VERIF, "seeded"))):
         subprocess.run(["git", "-C", "/repo", "worktree", "remove", "--force", wt], capture_output=True)
         shutil.rmtree(wt, ignore_errors=True)
         shutil.rmtree(f"/tmp/runseed-ev-{sid}", ignore_errors=True)
+if only:
+    # a partial run: keep the rows of the other seeds from the last table
+    res = os.path.join(VERIF, "seeded", "RESULTS.md")
+    old_rows = []
+    if os.path.exists(res):
+        for line in open(res):
+            cells = [c.strip() for c in line.strip().strip("|").split(" | ")]
+            if line.startswith("| C") and len(cells) >= 4 and cells[0] not in {r[0] for r in rows}:
+                old_rows.append((cells[0], cells[1], cells[2], " | ".join(cells[3:])))
+    rows = sorted(old_rows + rows)
 head = subprocess.run(["git", "-C", "/repo", "log", "--format=%h", "-1"], capture_output=True, text=True).stdout.strip()
 with open(os.path.join(VERIF, "seeded", "RESULTS.md"), "w") as f:
-    f.write(f"# Independently seeded changes vs. the quick check of the property they break\n\nrun {time.strftime('%Y-%m-%d %H:%M')}, /repo HEAD {head}; "
+    f.write(f"# Independently seeded changes vs. the quick check of the property they break\n\nrun {time.strftime('%Y-%m-%d %H:%M')}, /repo HEAD {head}{' (rows of ' + ' '.join(sorted(only)) + ' re-run, the others kept from the previous table)' if only else ''}; "
             "each change was written by a sub-agent that saw only the property text and a scratch worktree (see meta.json per seed).\n\n"
             "| seed | property | quick check | first alarm |\n|---|---|---|---|\n")
     for r in rows:
